@@ -20,7 +20,15 @@ RULE = ("scenario = platform (4 optional size/photon constraints, subset of {pro
         "ONE processor with one change in between (a circuit parameter's value set without structural change, input, "
         "noise, filter, post-selection, herald, iteration) while the server accepts, refuses, or registers the request "
         "and then drops the connection / lets the read time out; the number of requests received and of jobs existing "
-        "server-side is compared after every event. Another stream runs Job._handle_params on arbitrary names, "
+        "server-side is compared after every event. A routes stream reaches every request field by every route the "
+        "API offers: the filter through the processor's setter, the experiment object, the LogicalState default, an "
+        "assigned experiment, a user parameter named like it, each before / after clear_parameters and before / "
+        "after conversion, filter 0; parameters through set_parameter before / after clear_parameters; noise through "
+        "the constructor, the attribute, an assigned experiment; input through BasicState, LogicalState, an assigned "
+        "experiment; the routes are also operations of the random sessions and are counted (route.*) in the "
+        "histogram. The model's payload is computed from the processor's reported state (filter of the experiment, "
+        "current parameter dict), and the processor's parameter dict is compared white-box after construction and "
+        "at the end. Another stream runs Job._handle_params on arbitrary names, "
         "presets, positional and keyword arguments. Non-trivial: at least one request reached the server or a "
         "conversion/constraint/argument check refused the scenario; distinct by the full scenario tree.")
 TRUSTED = ["model: coq/Model/Payload.v, PayloadX.v (hand-written; tied by this correspondence stream)",
@@ -35,6 +43,11 @@ ASSUMPTIONS = ["circuits, noise models and post-selection expressions are carrie
                "request carries their value at execution time, every other field its value at job creation; the "
                "model and the theorems state exactly this",
                "phase noise (phase_imprecision / phase_error) is not generated: the statement sets it aside",
+               "an experiment assigned to a RemoteProcessor is given the platform's name: AProcessor.name is the "
+               "experiment's name and prepare_job_payload sends it as 'platform_name' (an assigned experiment with its "
+               "default name would address the job to a platform called 'Experiment'; outside the statement)",
+               "StateVector / SVDistribution inputs are not generated: prepare_job_payload refuses them "
+               "(len() of a distribution is compared with the mode count; remove_modes does not exist on them)",
                "photon-count constraints are those the code checks: photons on the modes of interest + expected herald "
                "photons; when add_herald is called after with_input the stored input is older than the herald and its "
                "own photon count can differ (counted in the histogram, not judged)"]
@@ -47,6 +60,11 @@ METHODS = ["probs", "sample_count", "samples"]
 KW_NAMES = ["max_samples", "max_shots", "foo", "bar", "baz"]
 NOISE_KEYS = ["brightness", "indistinguishability", "g2", "transmittance"]
 PS_OPS = ["==", ">", "<"]
+PARAM_NAMES = ["min_detected_photons", "g2", "thresholded", "custom"]
+ROUTES = {0: "input.with_input_BasicState", 1: "filter.processor_setter", 2: "noise.attribute", 3: "postselect.set",
+          4: "postselect.clear", 5: "heralds.add_herald", 6: "circuit.parameter_set_value",
+          7: "filter.experiment_object", 8: "parameters.set_parameter", 9: "parameters.clear_parameters",
+          10: "input+filter.LogicalState_default", 11: "all.experiment_assignment(noise via constructor)"}
 EXN = {"AssertionError": 1, "RuntimeError": 2, "ValueError": 3, "NotImplementedError": 4, "TypeError": 5,
        "IndexError": 6, "UnavailableModeException": 7, "HTTPError": 8, "ConnectionError": 9, "ReadTimeout": 10,
        "KeyError": 11}
@@ -57,7 +75,7 @@ SITES = [(r"Input length not compatible", 1), (r"expected must be 0 or 1", 2), (
          (r"circuit parameter .* does not exist", 32), (r"input state and processor size mismatch", 33),
          (r"Missing input state", 40), (r"cannot find a compatible primitive", 41), (r"passed twice", 51),
          (r"Unused parameters", 52), (r"not supported between", 53),
-         (r"number of modes should be a strictly positive", 70)]
+         (r"number of modes should be a strictly positive", 70), (r"Encoding / logical state size mismatch", 81)]
 KEYNAMES = {0: "command", 1: "circuit", 2: "input_state", 3: "parameters", 4: "postselect", 5: "heralds", 6: "noise",
             7: "iterator", 8: "max_shots", 9: "max_samples", 10: "job_context"}
 WITNESS_CID = 999983
@@ -207,8 +225,27 @@ def apply_op_real(proc, op):
         proc.clear_postselection()
     elif k == 5:
         proc.add_herald(op[1], op[2])
-    else:
+    elif k == 6:
         proc.get_circuit_parameters()[f"phi{op[1]}"].set_value(op[2] / 1000)
+    elif k == 7:
+        proc.experiment.min_detected_photons_filter(op[1][0] if op[1] else None)
+    elif k == 8:
+        proc.set_parameter(PARAM_NAMES[op[1]], op[2][0] if op[2] else None)
+    elif k == 9:
+        proc.clear_parameters()
+    elif k == 10:
+        from perceval import LogicalState
+        proc.with_input(LogicalState(list(op[1])))
+    else:
+        from perceval import Experiment
+        (cid, size, vals), pnames, f, nz, inp = op[1], op[2], op[3], op[4], op[5]
+        # named like the platform: AProcessor.name is the experiment's name and ends up in 'platform_name'
+        e = Experiment(circuit_for(cid, size, pnames)[0](vals), noise=mk_noise(nz[0]) if nz else None, name=PLATFORM)
+        if f:
+            e.min_detected_photons_filter(f[0])
+        if inp:
+            e.with_input(BasicState(list(inp[0])))
+        proc.experiment = e
 
 
 def iteration_kwargs(it):
@@ -243,7 +280,8 @@ def proc_state(proc):
     return {"heralds": [[int(k), int(v)] for k, v in proc.heralds.items()],
             "input": None if st is None else [int(x) for x in st],
             "ps": proc.experiment.post_select_fn, "noise": proc.experiment._noise,
-            "filter": proc.experiment.min_photons_filter, "size": proc.circuit_size}
+            "filter": proc.experiment.min_photons_filter, "size": proc.circuit_size,
+            "params": dict(proc.parameters)}
 
 
 def run_real(sc, mobs):
@@ -257,8 +295,9 @@ def run_real(sc, mobs):
     from perceval.runtime.rpc_handler import RPCHandler
     from perceval.algorithm import Sampler
     platform, base, ops, shots, events = sc
+    base = list(base) + [[]] * (9 - len(base))
     kind, cid, size, pnames, via_set, ports = base[:6]
-    piecewise = len(base) > 6 and base[6]
+    piecewise = base[6]
     vals0 = base[7]
     build0, U0 = circuit_for(cid, size, pnames)
     build = lambda: build0(vals0)
@@ -274,7 +313,7 @@ def run_real(sc, mobs):
         rp = None
         try:
             if kind == 0:
-                rp = RemoteProcessor(rpc_handler=handler, m=size)
+                rp = RemoteProcessor(rpc_handler=handler, m=size, noise=mk_noise(base[8][0]) if base[8] else None)
                 if via_set:
                     rp.set_circuit(build())
                 elif piecewise:
@@ -286,10 +325,10 @@ def run_real(sc, mobs):
                 out["conv"] = [0]
             else:
                 if piecewise:
-                    lp = Processor("SLOS", size)
+                    lp = Processor("SLOS", size, noise=mk_noise(base[8][0]) if base[8] else None)
                     add_pieces(lp)
                 else:
-                    lp = Processor("SLOS", build())
+                    lp = Processor("SLOS", build(), noise=mk_noise(base[8][0]) if base[8] else None)
                 for m in ports:
                     lp.add_port(m, Port(Encoding.RAW, f"q{m}"))
         except Exception as e:
@@ -375,7 +414,10 @@ def compare_proc(mp, real, U0, where):
     """mp: model of_proc tree; real: proc_state dict. Returns list of (sig, what, expected, observed)."""
     import numpy as np
     errs = []
-    circ, _pn, _ports, her, inp, ps, nz, flt = mp
+    circ, _pn, _ports, her, inp, ps, nz, flt, params = mp
+    exp_params = {PARAM_NAMES[k]: opt(v) for k, v in params}
+    if exp_params != real["params"]:
+        errs.append((f"{where}-parameters", "the processor's parameter dict differs", exp_params, real["params"]))
     if [list(h) for h in her] != real["heralds"]:
         errs.append((f"{where}-heralds", "heralds differ", her, real["heralds"]))
     if opt(inp) != real["input"]:
@@ -449,7 +491,7 @@ def compare_request(mreq, raw, U0):
             exp = list(val)
             ok = isinstance(got, BasicState) and [int(x) for x in got] == exp
         elif tag == 3:
-            exp = {"min_detected_photons": opt(val)}
+            exp = {PARAM_NAMES[k_]: opt(v_) for k_, v_ in val}
             ok = got == exp
         elif tag == 4:
             exp = mk_ps([(c[0], c[1], c[2]) for c in val])
@@ -634,9 +676,27 @@ def gen_state(rng, m, maxn=3):
     return st
 
 
-def gen_op(rng, size, nher, malformed, allow_herald=True, free_modes=None, pnames=()):
+def gen_op(rng, size, nher, malformed, allow_herald=True, free_modes=None, pnames=(), ports=(), assign=None):
     m = max(size - nher, 0)
-    t = rng.choice(["in", "in", "filter", "filter", "noise", "ps", "clear", "herald", "herald", "param", "param"])
+    t = rng.choice(["in", "in", "filter", "filter", "noise", "ps", "clear", "herald", "herald", "param", "param",
+                    "expfilter", "expfilter", "setparam", "clearp", "logical", "assign"])
+    if t == "expfilter":
+        return [7, rng.choice([[], [0], [1], [2]])]
+    if t == "setparam":
+        return [8, rng.below(4), [] if rng.chance(1, 5) else [rng.rint(0, 9)]]
+    if t == "clearp":
+        return [9]
+    if t == "logical":
+        if len(ports) == m and m > 0 or malformed:
+            n = len(ports) + (1 if malformed and rng.chance(1, 3) else 0)
+            return [10, [rng.below(2) for _ in range(max(n, 1))]]
+        t = "in"
+    if t == "assign":
+        if assign is not None:
+            cid, vals0 = assign
+            return [11, [cid, size, vals0], list(pnames), rng.choice([[], [0], [1], [2]]),
+                    [gen_noise(rng)] if rng.chance(1, 2) else [], [gen_state(rng, size, 2)] if rng.chance(2, 3) else []]
+        t = "filter"
     if t == "herald" and not allow_herald:
         t = "filter"
     if t == "param":
@@ -676,13 +736,21 @@ def gen_scenario(rng, malformed):
         platform[4 + rng.below(3)] = True
     if not pnames and rng.chance(1, 2):
         pnames = [rng.below(3)]
-    base = [kind, rng.below(100000), size, pnames, rng.chance(1, 3) and kind == 0, ports, rng.chance(1, 2),
-            [[n, 300 + 410 * n] for n in pnames]]
+    if rng.chance(1, 6):
+        ports = list(range(size))       # every mode has a RAW port: LogicalState inputs are possible
+    cid = rng.below(100000)
+    vals0 = [[n, 300 + 410 * n] for n in pnames]
+    base = [kind, cid, size, pnames, rng.chance(1, 3) and kind == 0, ports, rng.chance(1, 2),
+            vals0, [gen_noise(rng)] if rng.chance(1, 5) else []]
     ops = []
     her = set()
     for _ in range(rng.rint(0, 6)):
         free = [m for m in range(size) if m not in her and m not in ports]
-        op = gen_op(rng, size, len(her), malformed, allow_herald=len(her) < size - 1, free_modes=free, pnames=pnames)
+        op = gen_op(rng, size, len(her), malformed, allow_herald=len(her) < size - 1, free_modes=free, pnames=pnames,
+                    ports=ports, assign=(cid, vals0) if kind == 0 else None)
+        if op[0] == 11:
+            her.clear()
+            ports = []
         if op[0] == 5 and op[2] <= 1 and op[1] not in her and op[1] not in ports:
             her.add(op[1])
         ops.append(op)
@@ -705,7 +773,10 @@ def gen_scenario(rng, malformed):
         elif t == "op":
             free = [x for x in range(size) if x not in her and x not in ports]
             op = gen_op(rng, size, len(her), malformed, allow_herald=(len(her) < size - 1 and kind == 0), free_modes=free,
-                        pnames=pnames)
+                        pnames=pnames, ports=ports if kind == 0 else (), assign=(cid, vals0))
+            if op[0] == 11:
+                her.clear()
+                ports = []
             if op[0] == 5 and op[2] <= 1 and op[1] not in her and op[1] not in ports:
                 her.add(op[1])
             events.append([0, op])
@@ -798,7 +869,7 @@ def product_scenarios():
                                 platform = [[6], [2], [4], [1], i % 2 == 0, i % 4 >= 1, i % 5 == 0]
                                 pn = [0] if i % 3 == 0 else []
                                 base = [kind, 4242 + (i % 7), size, pn, False,
-                                        [2] if ports else [], i % 2 == 1, [[n, 300 + 410 * n] for n in pn]]
+                                        [2] if ports else [], i % 2 == 1, [[n, 300 + 410 * n] for n in pn], []]
                                 out.append([platform, base, ops, [100], evs])
                                 i += 1
     return out
@@ -817,7 +888,8 @@ def repeated_job_scenarios(rng, n):
         platform = [[size + 2], [1], [6], [], True, True, True]
         if rng.chance(1, 3):
             platform[4 + rng.below(3)] = False
-        base = [kind, rng.below(100000), size, pnames, False, [], rng.chance(1, 2), [[n_, 300 + 410 * n_] for n_ in pnames]]
+        base = [kind, rng.below(100000), size, pnames, False, [], rng.chance(1, 2), [[n_, 300 + 410 * n_] for n_ in pnames],
+                [gen_noise(rng)] if rng.chance(1, 4) else []]
         ops = [[1, [rng.rint(0, 1)]]]
         her = []
         if rng.chance(1, 3) and size > 2:
@@ -829,7 +901,21 @@ def repeated_job_scenarios(rng, n):
         for rnd in range(3):
             evs.append([3, rng.below(3)])
             evs.append([4, rnd, [[rng.choice([7, 500, 20000])]], [], rng.choice([1, 1, 1, 2, 3, 4, 0])])
-            change = rng.choice(["param", "param", "param", "input", "noise", "filter", "ps", "herald", "iter"])
+            change = rng.choice(["param", "param", "param", "input", "noise", "filter", "ps", "herald", "iter",
+                                 "expfilter", "clearp", "setparam", "assign"])
+            if change == "expfilter":
+                evs.append([0, [7, [rng.rint(0, 2)]]])
+                continue
+            if change == "clearp":
+                evs.append([0, [9]])
+                continue
+            if change == "setparam":
+                evs.append([0, [8, rng.below(4), [rng.rint(0, 9)]]])
+                continue
+            if change == "assign":
+                evs.append([0, [11, [base[1], size, base[7]], pnames, [rng.rint(0, 2)], [], [gen_state(rng, size, 2)]]])
+                her, m = [], size
+                continue
             if change == "param":
                 # with heralds the conversion froze the parameters (KeyError on both sides): still a valid probe
                 evs.append([0, [6, rng.choice(pnames), rng.rint(100, 6000)]])
@@ -852,6 +938,55 @@ def repeated_job_scenarios(rng, n):
                 evs.append([1, [[4, rng.choice([5, 50])]]])
         out.append([platform, base, ops, [rng.choice([100, 1000])], evs])
     return out
+
+
+def route_scenarios():
+    """Every route by which the filter (and the parameter dict, the input, the noise) can come to hold its value,
+    crossed with direct / converted processors and route applied before / after the conversion; two jobs each, the
+    second after clear_parameters or set_parameter."""
+    out = []
+    size = 3
+    allports = [0, 1, 2]
+    filt_routes = {
+        "setter": [[1, [2]]], "setter0": [[1, [0]]], "experiment": [[7, [1]]], "experiment0": [[7, [0]]],
+        "logical_default": [[10, [1, 0, 1]]], "logical_after_setter": [[1, [1]], [10, [1, 1, 0]]],
+        "param_named_like_filter_only": [[8, 0, [3]]],             # filter stays unset: the job must be refused
+        "param_named_like_filter_then_experiment": [[8, 0, [3]], [7, [1]]],
+        "setter_then_clear": [[1, [2]], [9]], "experiment_then_clear": [[7, [2]], [9]],
+        "logical_then_clear": [[10, [1, 1, 1]], [9]], "clear_then_setter": [[9], [1, [1]]],
+        "clear_then_experiment": [[9], [7, [0]]], "setter_then_experiment": [[1, [2]], [7, [0]]],
+        "setter_then_none_on_experiment": [[1, [2]], [7, []]],
+    }
+    i = 0
+    for kind in (0, 1):
+        for when in ("before", "after"):
+            if kind == 0 and when == "after":
+                continue
+            for name, rops in filt_routes.items():
+                for nz in ("none", "attribute", "constructor"):
+                    ops, evs = [], []
+                    (ops if when == "before" else evs).extend(rops if when == "before" else [[0, o] for o in rops])
+                    has_input = any(o[0] == 10 for o in rops)
+                    if not has_input:
+                        ops.append([0, [1, 0, 1]])
+                    if nz == "attribute":
+                        ops.append([2, [[[0, 600]]]])
+                    meth = i % 3
+                    evs += [[3, meth], [4, 0, [[50 + i]], [], 1],
+                            [0, [9]] if i % 2 == 0 else [0, [8, 1 + i % 3, [i % 5]]],
+                            [3, (meth + 1) % 3], [4, 1, [[60 + i]], [], 1]]
+                    base = [kind, 777 + i % 5, size, [0] if i % 2 else [], False, allports, False,
+                            [[0, 300]] if i % 2 else [], [[[2, 30]]] if nz == "constructor" else []]
+                    out.append(([[], [], [], [], True, True, i % 2 == 0], base, ops, [500], evs))
+                    i += 1
+    # the whole experiment assigned to a remote processor (filter, input and noise arrive with it)
+    for f in ([], [0], [2]):
+        for pre in ([], [[1, [1]]], [[9]]):
+            base = [0, 778, size, [0], False, [], False, [[0, 300]], []]
+            ops = list(pre) + [[11, [778, size, [[0, 300]]], [0], f, [[[0, 700]]], [[1, 1, 0]]]]
+            out.append(([[], [], [], [], True, True, True], base, ops, [500],
+                        [[3, 0], [4, 0, [], [], 1], [0, [9]], [3, 1], [4, 1, [[5]], [], 1]]))
+    return [list(x) for x in out]
 
 
 # ------------------------------------------------------------------ shrinking
@@ -929,6 +1064,10 @@ def run(ctx):
             ctx.count(f"{stream}.scenarios")
             ctx.count("requests_compared", nsent)
             ctx.count("kind." + ("direct" if sc[1][0] == 0 else "converted"))
+            for o in list(sc[2]) + [e[1] for e in sc[4] if e[0] == 0]:
+                ctx.count("route." + ROUTES.get(o[0], "?"))
+            if len(sc[1]) > 8 and sc[1][8]:
+                ctx.count("route.noise.constructor")
             if mout[1][0] == 1:
                 ctx.count("conversion_or_construction_refused")
             for o in mout[4]:
@@ -949,9 +1088,9 @@ def run(ctx):
     # stream 1: the full product of optional pieces (+ corpus witnesses of the recorded findings)
     prod = product_scenarios()
     permissive = [[], [], [], [], True, True, True]
-    prod.append([permissive, [1, WITNESS_CID, 4, [], False, [], True, []], [[5, 2, 0], [1, [1]]], [100],
+    prod.append([permissive, [1, WITNESS_CID, 4, [], False, [], True, [], []], [[5, 2, 0], [1, [1]]], [100],
                  [[0, [0, [1, 0, 0]]], [3, 0], [4, 0, [], [], 1]]])
-    prod.append([permissive, [1, 4242, 4, [], False, [], False, []], [[5, 3, 1], [1, [1]], [0, [1, 0, 0]]], [100],
+    prod.append([permissive, [1, 4242, 4, [], False, [], False, [], []], [[5, 3, 1], [1, [1]], [0, [1, 0, 0]]], [100],
                  [[3, 0], [4, 0, [], [], 1]]])
     process(prod, "product")
     ctx.streams["optional-pieces product (every combination)"] = len(prod)
@@ -963,6 +1102,11 @@ def run(ctx):
     n_bad = ctx.n(300, 3000)
     process([gen_scenario(rng, True) for _ in range(n_bad)], "malformed")
     ctx.streams["malformed scenarios"] = n_bad
+
+    # stream: every route by which a request field can get its value
+    routes = route_scenarios()
+    process(routes, "routes")
+    ctx.streams["routes (setter / experiment object / LogicalState default / assignment / clear_parameters)"] = len(routes)
 
     # stream: several jobs from one processor, one change in between, every kind of server answer
     n_rep = ctx.n(300, 3000)
